@@ -326,10 +326,11 @@ func lawHarness(w *World, fn *ssa.Function, cl *Clause, alpha string, maxLen int
 			pool = append(pool, v)
 		}
 	}
-	if len(pool) > 420 { step := len(pool)/420 + 1; var nx []*Version; for i := 0; i < len(pool); i += step { nx = append(nx, pool[i]) }; pool = nx }
+	if %s && len(pool) > 420 { step := len(pool)/420 + 1; var nx []*Version; for i := 0; i < len(pool); i += step { nx = append(nx, pool[i]) }; pool = nx }
 	cmp := func(a, b *Version) int { return a.Compare(b) }
-	show := func(a *Version) string { return fmt.Sprintf("%q", a.String()) }
+	show := func(a *Version) string { return fmt.Sprintf("%%q", a.String()) }
 `
+				src = fmt.Sprintf(src, fmt.Sprint(alpha == ""))
 				return src, "api: versions parsed by the real NewVersion, compared by the real Compare", true
 			}
 		}
@@ -401,6 +402,21 @@ func lawHarness(w *World, fn *ssa.Function, cl *Clause, alpha string, maxLen int
 
 func runLawSearch(w *World, fn *ssa.Function, cl *Clause, alpha string, maxLen int, timeout time.Duration, extraPool []string) *Counterexample {
 	prologue, how, ok := lawHarness(w, fn, cl, alpha, maxLen, extraPool)
+	if !ok && alpha != "" {
+		// bounded stand-in for a helper whose arguments cannot be enumerated directly: enumerate at the API level
+		if cmpFn := w.funcs[shortPkg(fn.Pkg.Pkg)+".(*Version).Compare"]; cmpFn != nil {
+			if cct := w.contractOf(cmpFn); cct != nil {
+				for _, c2 := range cct.clauses {
+					if c2.kind == "comparator" {
+						prologue, how, ok = lawHarness(w, cmpFn, c2, alpha, maxLen, extraPool)
+						how += " (stand-in for " + fn.Name() + ")"
+						fn = cmpFn
+						break
+					}
+				}
+			}
+		}
+	}
 	if !ok {
 		return nil
 	}
@@ -482,6 +498,127 @@ func searchCounterexample(w *World, prop string, r vcResult) *Counterexample {
 var propFalsifiers = map[string]func(w *World, fn *ssa.Function, r vcResult) *Counterexample{
 	"C19": raceFalsifier,
 	"C06": panicFalsifier,
+	"C18": textFalsifier,
+}
+
+const textTestTmpl = `package %s
+
+import (
+	"fmt"
+	"strings"
+	"testing"
+)
+
+func TestVerifReplay(t *testing.T) {
+	strs := %s
+	e := &Ecosystem{}
+	pads := [][2]string{{" ", ""}, {"", " "}, {"\t", "\n"}, {" \r\n", " \t "}}
+	sgn := func(x int) int { if x < 0 { return -1 }; if x > 0 { return 1 }; return 0 }
+	var vs []*Version
+	var rs []*VersionRange
+	for _, s := range strs {
+		if v, err := e.NewVersion(s); err == nil && len(vs) < 120 {
+			vs = append(vs, v)
+		}
+		if r, err := e.NewVersionRange(s); err == nil && len(rs) < 120 {
+			rs = append(rs, r)
+		}
+	}
+	n := 0
+	for _, s := range strs {
+		v0, err0 := e.NewVersion(s)
+		for _, p := range pads {
+			n++
+			v1, err1 := e.NewVersion(p[0] + s + p[1])
+			if (err0 == nil) != (err1 == nil) {
+				fmt.Printf("VERIF-CX acceptance of %%q changes with padding %%q: %%v vs %%v\n", s, p[0]+s+p[1], err0, err1)
+				return
+			}
+			if err0 != nil {
+				continue
+			}
+			if strings.TrimSpace(v1.String()) != strings.TrimSpace(p[0]+s+p[1]) {
+				fmt.Printf("VERIF-CX String() of %%q is %%q\n", p[0]+s+p[1], v1.String())
+				return
+			}
+			if v0.Compare(v1) != 0 || v1.Compare(v0) != 0 {
+				fmt.Printf("VERIF-CX %%q and its padded form %%q do not compare equal\n", s, p[0]+s+p[1])
+				return
+			}
+			for _, w := range vs {
+				if sgn(v0.Compare(w)) != sgn(v1.Compare(w)) || sgn(w.Compare(v0)) != sgn(w.Compare(v1)) {
+					fmt.Printf("VERIF-CX Compare with %%q differs between %%q and padded %%q\n", w.String(), s, p[0]+s+p[1])
+					return
+				}
+			}
+			for _, r := range rs {
+				if r.Contains(v0) != r.Contains(v1) {
+					fmt.Printf("VERIF-CX range %%q contains %%q: %%v, padded %%q: %%v\n", r.String(), s, r.Contains(v0), p[0]+s+p[1], r.Contains(v1))
+					return
+				}
+			}
+		}
+		if err0 == nil {
+			v2, err2 := e.NewVersion(v0.String())
+			if err2 != nil || v2.Compare(v0) != 0 {
+				fmt.Printf("VERIF-CX re-parsing String() of %%q fails or differs: %%v\n", s, err2)
+				return
+			}
+		}
+		r0, rerr0 := e.NewVersionRange(s)
+		for _, p := range pads {
+			r1, rerr1 := e.NewVersionRange(p[0] + s + p[1])
+			if (rerr0 == nil) != (rerr1 == nil) {
+				fmt.Printf("VERIF-CX acceptance of range %%q changes with padding: %%v vs %%v\n", s, rerr0, rerr1)
+				return
+			}
+			if rerr0 != nil {
+				continue
+			}
+			for _, w := range vs {
+				n++
+				if r0.Contains(w) != r1.Contains(w) {
+					fmt.Printf("VERIF-CX range %%q vs padded %%q differ on %%q\n", s, p[0]+s+p[1], w.String())
+					return
+				}
+			}
+		}
+		if rerr0 == nil {
+			r2, rerr2 := e.NewVersionRange(r0.String())
+			if rerr2 != nil {
+				fmt.Printf("VERIF-CX re-parsing range String() of %%q fails: %%v\n", s, rerr2)
+				return
+			}
+			for _, w := range vs {
+				if r0.Contains(w) != r2.Contains(w) {
+					fmt.Printf("VERIF-CX re-parsed range %%q differs on %%q\n", s, w.String())
+					return
+				}
+			}
+		}
+	}
+	fmt.Printf("VERIF-OK evals=%%d versions=%%d ranges=%%d\n", n, len(vs), len(rs))
+}
+`
+
+func textFalsifier(w *World, fn *ssa.Function, r vcResult) *Counterexample {
+	pkg := fn.Pkg
+	if pkg == nil || pkg.Pkg.Scope().Lookup("Ecosystem") == nil || pkg.Pkg.Scope().Lookup("Version") == nil {
+		return nil
+	}
+	pool := apiPool(w, pkg, []string{"1.0b1", "1.0.0", "^1.0.0", "~1.2", "^1.2.3", "~> 1.2", "1.0.0-beta1", "1.0-beta1"})
+	src := fmt.Sprintf(textTestTmpl, pkg.Pkg.Name(), goStringSlice(pool))
+	out, _ := runOverlayTest(w, pkg, src, 180*time.Second)
+	cx := &Counterexample{How: "real API: every pool string parsed bare and padded with white space; acceptance, String(), Compare and Contains compared", Output: truncate(lastLines(out, 10), 2000)}
+	for _, ln := range strings.Split(out, "\n") {
+		if strings.HasPrefix(ln, "VERIF-CX ") {
+			cx.Confirmed = true
+			cx.Observed = strings.TrimPrefix(ln, "VERIF-CX ")
+			return cx
+		}
+	}
+	cx.Observed = "no difference observed"
+	return cx
 }
 
 const panicTestTmpl = `package %s
